@@ -1583,15 +1583,29 @@ func ruleAdmitClass(p *Prog, r *Result) {
 			continue
 		}
 		supported := map[string]bool{"TSTR": true, "TNUMBER": true}
+		bothSides := false
+		supportedConst := int64(-1)
 		classNote := fmt.Sprintf("is evaluated by %s for text and %s otherwise", es.Callee.Name(), en.Callee.Name())
 		if es.Callee == en.Callee && strings.Join(es.Consts, ",") == strings.Join(en.Consts, ",") {
 			// not dispatched on the operand class: only the equality helper, whose type switch on the
 			// evaluated operand decides which static types it supports
-			if eqSupported == nil || !strings.HasPrefix(es.Callee.Name(), "execEqual") && !strings.HasPrefix(es.Callee.Name(), "execNotEqual") {
+			switch {
+			case strings.HasPrefix(es.Callee.Name(), "execAnd") || strings.HasPrefix(es.Callee.Name(), "execOr"):
+				// the logic operators assert Boolean operands on both sides
+				supported = map[string]bool{"TBOOL": true}
+				bothSides = true
+				for tv2, nm := range types_ {
+					if nm == "TBOOL" {
+						supportedConst = tv2
+					}
+				}
+				classNote = fmt.Sprintf("is evaluated by %s, which asserts Boolean operands", es.Callee.Name())
+			case eqSupported != nil && (strings.HasPrefix(es.Callee.Name(), "execEqual") || strings.HasPrefix(es.Callee.Name(), "execNotEqual")):
+				supported = eqSupported
+				classNote = fmt.Sprintf("is evaluated by %s, whose type switch covers the representations of %v only", es.Callee.Name(), keysOf(eqSupported))
+			default:
 				continue
 			}
-			supported = eqSupported
-			classNote = fmt.Sprintf("is evaluated by %s, whose type switch covers the representations of %v only", es.Callee.Name(), keysOf(eqSupported))
 		}
 		// the typing helper of this operator
 		reach := walkAssuming(chk, decideEqConst(isOp, v))
@@ -1620,71 +1634,103 @@ func ruleAdmitClass(p *Prog, r *Result) {
 				continue
 			}
 			n++
-			// assumption: the operator is `v`, the left operand has static type tv, and wherever the helper compares another
-			// operand's type with the left one they agree. Roles: "left" = the left operand (the field e.Left, or a
-			// parameter bound to it at a call), "node" = the operator node itself.
-			isLeftVal := func(fn *ssa.Function, x ssa.Value, bound map[*ssa.Parameter]string) bool {
-				x = stripConv(x)
-				if pa, ok := x.(*ssa.Parameter); ok {
-					return bound[pa] == "left"
-				}
-				return isFieldLoad(x, "BinaryOpExpr", "Left")
-			}
-			rtRecvOf := func(c *ssa.Call) ssa.Value {
-				if c.Call.IsInvoke() {
-					return c.Call.Value
-				}
-				if len(c.Call.Args) > 0 {
-					return c.Call.Args[0]
-				}
-				return nil
-			}
-			as := &assumption{p: p}
-			as.leaf = func(fn *ssa.Function, x ssa.Value, bound map[*ssa.Parameter]string) (aval, bool) {
-				if isOp(x) {
-					return aval{kind: 1, i: v}, true
-				}
-				if c, ok := x.(*ssa.Call); ok && isRT(x) {
-					if rv := rtRecvOf(c); rv != nil && isLeftVal(fn, rv, bound) {
-						return aval{kind: 1, i: tv}, true
+			// assumption: the operator is `v`, one operand (`side`) has static type tv, and wherever the helper compares
+			// the two operands' types they agree (unless the other operand's type is fixed by the scenario). Roles:
+			// "left"/"right" = the operand (the field, or a parameter bound to it at a call), "node" = the operator node.
+			rejects := func(side string, otherTv int64) string {
+				fieldOf := map[string]string{"left": "Left", "right": "Right"}
+				other := map[string]string{"left": "right", "right": "left"}[side]
+				roleOf := func(fn *ssa.Function, x ssa.Value, bound map[*ssa.Parameter]string) string {
+					x = stripConv(x)
+					if pa, ok := x.(*ssa.Parameter); ok {
+						return bound[pa]
 					}
-					return aval{}, true // another operand's type: unknown by itself
-				}
-				// ... but equal to the left operand's type wherever the helper compares the two
-				if bo, ok := x.(*ssa.BinOp); ok && (bo.Op == token.EQL || bo.Op == token.NEQ) && isRT(bo.X) && isRT(bo.Y) {
-					if bo.Op == token.EQL {
-						return aval{kind: 2, b: abTrue}, true
+					for role, f := range fieldOf {
+						if isFieldLoad(x, "BinaryOpExpr", f) {
+							return role
+						}
 					}
-					return aval{kind: 2, b: abFalse}, true
+					return ""
 				}
-				return aval{}, false
-			}
-			as.typeTest = func(fn *ssa.Function, ta *ssa.TypeAssert, bound map[*ssa.Parameter]string) (abool, bool) {
-				if !isLeftVal(fn, ta.X, bound) {
+				rtRecvOf := func(c *ssa.Call) ssa.Value {
+					if c.Call.IsInvoke() {
+						return c.Call.Value
+					}
+					if len(c.Call.Args) > 0 {
+						return c.Call.Args[0]
+					}
+					return nil
+				}
+				as := &assumption{p: p}
+				as.leaf = func(fn *ssa.Function, x ssa.Value, bound map[*ssa.Parameter]string) (aval, bool) {
+					if isOp(x) {
+						return aval{kind: 1, i: v}, true
+					}
+					if c, ok := x.(*ssa.Call); ok && isRT(x) {
+						if rv := rtRecvOf(c); rv != nil {
+							switch roleOf(fn, rv, bound) {
+							case side:
+								return aval{kind: 1, i: tv}, true
+							case other:
+								if otherTv >= 0 {
+									return aval{kind: 1, i: otherTv}, true
+								}
+							}
+						}
+						return aval{}, true // unknown by itself
+					}
+					// ... but the two operands' types agree wherever the helper compares them (when the scenario leaves the other open)
+					if bo, ok := x.(*ssa.BinOp); ok && otherTv < 0 && (bo.Op == token.EQL || bo.Op == token.NEQ) && isRT(bo.X) && isRT(bo.Y) {
+						if bo.Op == token.EQL {
+							return aval{kind: 2, b: abTrue}, true
+						}
+						return aval{kind: 2, b: abFalse}, true
+					}
+					return aval{}, false
+				}
+				as.typeTest = func(fn *ssa.Function, ta *ssa.TypeAssert, bound map[*ssa.Parameter]string) (abool, bool) {
+					want := int64(-1)
+					switch roleOf(fn, ta.X, bound) {
+					case side:
+						want = tv
+					case other:
+						want = otherTv
+					}
+					if want < 0 {
+						return abBoth, false
+					}
+					if nt := namedOf(ta.AssertedType); nt != nil {
+						if ft, fixed := p.fixedReturnType(nt); fixed && ft != want {
+							return abFalse, true
+						}
+					}
 					return abBoth, false
 				}
-				if nt := namedOf(ta.AssertedType); nt != nil {
-					if ft, fixed := p.fixedReturnType(nt); fixed && ft != tv {
-						return abFalse, true
+				as.bind = func(fn *ssa.Function, arg ssa.Value, bound map[*ssa.Parameter]string) string {
+					if role := roleOf(fn, arg, bound); role == "left" || role == "right" {
+						return role
+					}
+					if pa, ok := stripConv(arg).(*ssa.Parameter); ok && (bound[pa] == "node" || (fn == helper && len(fn.Params) > 0 && pa == fn.Params[0])) {
+						return "node"
+					}
+					return ""
+				}
+				res := as.run(helper, map[*ssa.Parameter]string{helper.Params[0]: "node"})
+				acc := ""
+				for _, ret := range res.rets {
+					ev := res.ev(retVal(ret, 0))
+					if isNilConst(retVal(ret, 0)) || (ev.kind == 3 && ev.isNil != abFalse) || ev.kind == 0 {
+						acc = p.InstrPos(ret)
 					}
 				}
-				return abBoth, false
+				return acc
 			}
-			as.bind = func(fn *ssa.Function, arg ssa.Value, bound map[*ssa.Parameter]string) string {
-				if isLeftVal(fn, arg, bound) {
-					return "left"
-				}
-				if pa, ok := stripConv(arg).(*ssa.Parameter); ok && (bound[pa] == "node" || (fn == helper && len(fn.Params) > 0 && pa == fn.Params[0])) {
-					return "node"
-				}
-				return ""
-			}
-			res := as.run(helper, map[*ssa.Parameter]string{helper.Params[0]: "node"})
-			accepted := ""
-			for _, ret := range res.rets {
-				ev := res.ev(retVal(ret, 0))
-				if isNilConst(retVal(ret, 0)) || (ev.kind == 3 && ev.isNil != abFalse) || ev.kind == 0 {
-					accepted = p.InstrPos(ret)
+			accepted := rejects("left", -1)
+			if accepted == "" && bothSides {
+				// the right operand of a logic operator: a Boolean left operand does not excuse a non-Boolean right one
+				accepted = rejects("right", supportedConst)
+				if accepted != "" {
+					accepted += " (right operand, Boolean left operand)"
 				}
 			}
 			r.add(accepted == "", fmt.Sprintf("%s|%s", name, tn), p.Pos(helper.Pos()), fmt.Sprintf("operator %s %s; its typing helper %s must reject operands of static type %s%s", name, classNote, helper.Name(), tn, map[bool]string{true: " but accepts them at " + accepted}[accepted != ""]))
